@@ -5,7 +5,8 @@ designates, the shape of an error chain, and a Hoare-style rule set for "if this
 its error chain is located".
 
 `posOf n` lists every position the node `n` designates: the stored token positions of `n` and of
-all its sub-nodes, and `Node.start` of each of them (`ast.NodeStartPos`, which for `l op r` is the
+all its sub-nodes (but not the `ElsePos` field of an if statement, which no error ever uses and which
+is the literal 0:0:0 when there is no else), and `Node.start` of each of them (`ast.NodeStartPos`, which for `l op r` is the
 start of `l`: again a stored position of the sub-tree, see `ErrPosStart.lean`).
 -/
 namespace Platypus.ErrPos
@@ -35,7 +36,7 @@ def posOf : Node → List Pos
   | .call name args np lp rp site => Node.start (.call name args np lp rp site) :: np :: lp :: rp :: posOfL args
   | .slice o a b c c2 lb rb =>
     Node.start (.slice o a b c c2 lb rb) :: lb :: rb :: (posOf o ++ (posOfO a ++ (posOfO b ++ posOfO c)))
-  | .ifelse ifs els ep => Node.start (.ifelse ifs els ep) :: ep :: (posOfIfs ifs ++ posOfOB els)
+  | .ifelse ifs els ep => Node.start (.ifelse ifs els ep) :: (posOfIfs ifs ++ posOfOB els)
   | .forS i c l b p => Node.start (.forS i c l b p) :: p :: (posOfO i ++ (posOfO c ++ (posOfO l ++ posOfOB b)))
   | .forIn v it b fp ip => Node.start (.forIn v it b fp ip) :: fp :: ip :: (posOf v ++ (posOf it ++ posOfOB b))
 def posOfL : List Node → List Pos
